@@ -128,6 +128,13 @@ seeder_urandom(const br_prng_class **ctx)
 				}
 				break;
 			}
+			if (len == 0) {
+				/*
+				 * End of file: no more bytes will come
+				 * (this is not a working random source).
+				 */
+				break;
+			}
 			u += (size_t)len;
 		}
 		close(f);
